@@ -221,6 +221,28 @@ func Drivers(nthreads int) []Driver {
 				*out = append(*out, freshNameRe.ReplaceAllString(obsMap(m, d), "unit_N_")) // the numbering is not part of the observation
 			}}
 		}},
+		{"14 results handed back through SanitizeMapAndCollect / SanitizeListAndCollect while other threads keep failing", nthreads, func() *Shared {
+			s := z.Struct(z.Schema{"name": z.String().Min(5).Required(), "age": z.Int().GT(18)})
+			p := z.String().Min(5).Contains("z")
+			flat := func(m map[string][]string) string {
+				var ks []string
+				for k, l := range m {
+					ks = append(ks, fmt.Sprintf("%s=%v", k, l))
+				}
+				sort.Strings(ks)
+				return strings.Join(ks, ";")
+			}
+			return &Shared{Thread: func(i int, out *[]string, yield func()) {
+				var d user
+				m := s.Parse(map[string]any{"name": []string{"ab", "cd"}[i%2], "age": 3 + i}, &d)
+				*out = append(*out, "sanitized: "+flat(z.Issues.SanitizeMapAndCollect(m)))
+				var v string
+				l := p.Parse("ab", &v)
+				*out = append(*out, fmt.Sprintf("sanitized list: %v", z.Issues.SanitizeListAndCollect(l)))
+				m2 := s.Parse(map[string]any{"age": 1}, &d)
+				*out = append(*out, obsMap(m2, d))
+			}}
+		}},
 		{"9 shared slice schema on long slices (12+ items), issues at high indexes", nthreads, func() *Shared {
 			s := z.Slice(z.String().Min(3)).Min(1)
 			return &Shared{Thread: func(i int, out *[]string, yield func()) {
